@@ -270,6 +270,172 @@ def read_kv(path):
 
 
 # ------------------------------------------------------------------------------------------------
+# Extraction cross-check: a sample of the cases the extracted driver answered is evaluated again
+# inside Coq (vm_compute on the same Gallina definitions) and compared there (Base/XCheck.v).
+# ------------------------------------------------------------------------------------------------
+
+def _z(s):
+    return f"({int(s)})"
+
+
+def _zl(hexs):
+    if hexs == "-":
+        return "[]"
+    return "[" + ";".join(str(int(hexs[i:i + 2], 16)) for i in range(0, len(hexs), 2)) + "]"
+
+
+def _parts(s):
+    if s == ".":
+        return "[]"
+    return "[" + ";".join(_zl(x) for x in s.split(",")) + "]"
+
+
+def _b(s):
+    return "true" if s == "1" else "false"
+
+
+def _us(s):
+    return "18446744073709551615" if s == "-" else _z(s)
+
+
+_ARCH = dict(x86="X86", arm="ARM", armthumb="ARMT", arm64="ARM64", ppc="PPC", sparc="SPARC", ia64="IA64", riscv="RISCV")
+
+
+def _exp_out(txt, kind):
+    """Driver answer -> Gallina term of type xout _ ; None if the answer is not a value of the model."""
+    w = txt.split(" ")
+    try:
+        if w[0] == "OK":
+            if kind == "bytes" and len(w) == 2:
+                return f"(XOk {_zl(w[1])})"
+            if kind == "z" and len(w) == 2:
+                return f"(XOk {_z(w[1])})"
+            if kind == "pair" and len(w) == 3:
+                return f"(XOk ({_z(w[1])}, {_z(w[2])}))"
+            return None
+        if w[0] == "ERR" and len(w) == 2:
+            return f"(XErr {_z(w[1])})"
+        if txt == "PANIC":
+            return "XPanic"
+        if txt == "FUEL":
+            return "XFuel"
+    except ValueError:
+        return None
+    return None
+
+
+def _exp_opt(txt):
+    w = txt.split(" ")
+    if w[0] == "OK" and len(w) == 2:
+        return f"(Some {_zl(w[1])})"
+    if txt == "PANIC":
+        return "None"
+    return None
+
+
+def _ep(d, lc, lp, pb, mode, mf, nice):
+    return f"(mk_enc_params {_z(d)} {_z(lc)} {_z(lp)} {_z(pb)} {_z(mode)} {_z(mf)} {_z(nice)})"
+
+
+def _xc_out(kind, term):
+    eqb = dict(bytes="zlist_eqb", z="Z.eqb", pair="zpair_eqb")[kind]
+    return lambda a, m: (lambda e: e and f"x_outcome {eqb} ({term(a)}) {e}")(_exp_out(m, kind))
+
+
+# command -> (modules, function(args, model answer) -> Gallina boolean term or None).  The terms
+# repeat, in Gallina, exactly what the handler of the same command in driver/h_<area>.ml applies.
+XCHECK = {
+    "delta_enc": ("Filter.Delta", lambda a, m: (lambda e: e and f"x_option zlist_eqb (delta_write_parts {_z(a[0])} {_parts(a[1])}) {e}")(_exp_opt(m))),
+    "delta_dec": ("Filter.Delta", lambda a, m: (lambda e: e and f"x_option zlist_eqb (delta_read_parts {_z(a[0])} {_parts(a[1])}) {e}")(_exp_opt(m))),
+    "delta_spec": ("Filter.Delta", lambda a, m: (lambda e: e and f"x_option zlist_eqb (Some (delta_spec_enc {_z(a[0])} [] {_zl(a[1])})) {e}")(_exp_opt(m))),
+    "bcj_enc": ("Filter.Bcj Filter.BcjStream", _xc_out("bytes", lambda a: f"bcj_enc_parts {_ARCH[a[0]]} {_z(a[1])} {_parts(a[2])}")),
+    "bcj_enc_short": ("Filter.Bcj Filter.BcjStream", _xc_out("bytes", lambda a: f"bcj_enc_parts {_ARCH[a[0]]} {_z(a[1])} {_parts(a[2])}")),
+    "bcj_spec": ("Filter.Bcj Filter.BcjStream", _xc_out("bytes", lambda a: f"bcj_stream {_ARCH[a[0]]} {'true' if a[1] == 'enc' else 'false'} {_z(a[2])} {_zl(a[3])}")),
+    "lzip_dict_enc": ("Format.LzipDict", _xc_out("z", lambda a: f"lzip_encode_dict_size {_z(a[0])}")),
+    "lzip_dict_enc_old": ("Format.LzipDict", _xc_out("z", lambda a: f"lzip_encode_dict_size_old {_z(a[0])}")),
+    "lzip_dict_dec": ("Format.LzipDict", _xc_out("z", lambda a: f"lzip_decode_dict_size {_z(a[0])}")),
+    "lzip_header_dict": ("Format.LzipDict", _xc_out("z", lambda a: f"lzip_header_dict {_z(a[0])}")),
+    "mu_enc": ("Arith.MemUsage", _xc_out("z", lambda a: f"enc_estimate {_b(a[0])} {_ep(a[1], a[2], a[3], 2, a[4], a[5], 64)}")),
+    "mu_enc_old": ("Arith.MemUsage", _xc_out("z", lambda a: f"enc_estimate_old {_b(a[0])} {_ep(a[1], a[2], a[3], 2, a[4], a[5], 64)}")),
+    "mu_dec": ("Arith.MemUsage", _xc_out("z", lambda a: f"dec_estimate {_b(a[0])} {_z(a[1])} {_z(a[2])} {_z(a[3])}")),
+    "mu_decp": ("Arith.MemUsage", _xc_out("z", lambda a: f"dec_estimate_by_props {_b(a[0])} {_z(a[1])} {_z(a[2])}")),
+    "mu_dec2": ("Arith.MemUsage", _xc_out("z", lambda a: f"dec2_estimate {_b(a[0])} {_z(a[1])}")),
+    "mu_dec2_old": ("Arith.MemUsage", _xc_out("z", lambda a: f"dec2_estimate_old {_b(a[0])} {_z(a[1])}")),
+    "al_enc": ("Arith.MemUsage", _xc_out("pair", lambda a: f"obs_al_enc {_b(a[0])} {_z(a[1])} {_ep(*a[2:9])}")),
+    "al_encr": ("Arith.MemUsage", _xc_out("pair", lambda a: f"obs_al_encr {_b(a[0])} {_ep(*a[1:8])}")),
+    "al_dec": ("Arith.MemUsage", _xc_out("pair", lambda a: f"obs_al_dec {_b(a[0])} {_z(a[1])} {_z(a[2])} {_z(a[3])} {_us(a[5])}")),
+    "al_dec2": ("Arith.MemUsage", _xc_out("pair", lambda a: f"obs_al_dec2 {_b(a[0])} {_z(a[1])} {_z(a[2])} {_z(a[3])}")),
+}
+_XCHECK_DONE = set()
+XCHECK_SAMPLE = 48          # cases per area and stage
+XCHECK_MAXLEN = 6000        # characters of a case line (a hex byte becomes a Z literal)
+
+
+def xcheck(cases, model, workdir):
+    """cases/model: dicts id -> command line / driver answer.  Returns dict(sampled, agreed,
+    disagreed=[(cmd, driver answer)], skipped=reason or None)."""
+    res = dict(sampled=0, agreed=0, disagreed=[], skipped=None)
+    elig = []
+    for k, line in cases.items():
+        w = line.split(" ")
+        if w[0] in XCHECK and len(line) <= XCHECK_MAXLEN and k.lstrip("-").isdigit():
+            elig.append(k)
+    if not elig:
+        res["skipped"] = "no command of this area has an in-Coq twin"
+        return res
+    # deterministic sample: evenly strided over the eligible cases of every command
+    by_cmd = {}
+    for k in elig:
+        by_cmd.setdefault(cases[k].split(" ")[0], []).append(k)
+    per = max(1, XCHECK_SAMPLE // len(by_cmd))
+    pick = []
+    for cmd in sorted(by_cmd):
+        ks = by_cmd[cmd]
+        step = max(1, len(ks) // per)
+        pick += ks[::step][:per]
+    mods, terms = set(), []
+    for k in pick:
+        w = cases[k].split(" ")
+        m, f = XCHECK[w[0]]
+        try:
+            t = f(w[1:], model.get(k, "MISSING"))
+        except (IndexError, KeyError, ValueError):
+            t = None
+        if t:
+            mods.update(m.split())
+            terms.append((k, t))
+    if not terms:
+        res["skipped"] = "no sampled case had a model value to compare"
+        return res
+    ok, out = coq_build(" ".join(x.replace(".", "/") + ".vo" for x in sorted(mods | {"Base.XCheck"})))
+    if not ok:
+        res["skipped"] = "model libraries do not build (reported by the proof step)"
+        return res
+    os.makedirs(workdir, exist_ok=True)
+    src = os.path.join(workdir, "xcheck.v")
+    with open(src, "w") as f:
+        f.write("From LzVerif Require Import Base.Bytes Base.XCheck " + " ".join(sorted(mods)) + ".\nOpen Scope Z_scope.\n")
+        f.write("Definition xc : list (Z * bool) := [\n" + ";\n".join(f"({int(k)}, {t})" for k, t in terms) + "].\n")
+        f.write("Eval vm_compute in x_failed xc.\n")
+    rc, out = sh(f"coqc -noglob -Q {COQ} LzVerif -o {os.path.join(workdir, 'xcheck.vo')} {src}", timeout=900)
+    res["sampled"] = len(terms)
+    m = re.search(r"=\s*(\[[^\]]*\])\s*:\s*list Z", out)
+    if rc == 124:
+        res["sampled"] = 0
+        res["skipped"] = "coqc time limit (900 s) reached; says nothing about the cases"
+        return res
+    if rc != 0 or not m:
+        # a term that does not type-check means the table above no longer matches the model's
+        # signatures: that is a fault of the cross-check, reported as such
+        res["disagreed"] = [("xcheck.v did not compile", out[-600:])]
+        return res
+    bad = [x for x in re.findall(r"-?\d+", m.group(1))]
+    res["agreed"] = len(terms) - len(bad)
+    res["disagreed"] = [(short(cases[b], 300), model.get(b, "?")) for b in bad if b in cases]
+    return res
+
+
+# ------------------------------------------------------------------------------------------------
 # Known findings
 # ------------------------------------------------------------------------------------------------
 
@@ -300,6 +466,7 @@ class AreaResult:
         self.samples = []
         self.nontrivial = set()
         self.errors = []
+        self.xcheck = dict(sampled=0, agreed=0)
 
 
 def short(s, n=400):
@@ -330,6 +497,16 @@ def run_area(area, tier, seed, profile="release", config="default", corpus=True,
         impl = read_kv(f"{d}/impl.txt")
         model = read_kv(f"{d}/model.txt")
         oracle = read_kv(f"{d}/oracle.txt")
+        # once per area and check run: the model's answers do not depend on the build profile
+        if os.environ.get("LZVERIF_NO_XCHECK") != "1" and name == "gen" and tag in ("", "-checked") \
+                and area not in _XCHECK_DONE:
+            _XCHECK_DONE.add(area)
+            xc = xcheck(cases, model, f"{d}/xcheck")
+            res.xcheck["sampled"] += xc["sampled"]
+            res.xcheck["agreed"] += xc["agreed"]
+            for c, a in xc["disagreed"]:
+                res.errors.append(f"extraction cross-check: the extracted driver answered [{short(a, 200)}] on [{c}] but "
+                                  f"vm_compute inside Coq on the same definitions does not (see {d}/xcheck/xcheck.v)")
         for k, cmd_line in cases.items():
             res.n += 1
             i, m, o = impl.get(k, "MISSING"), model.get(k, "MISSING"), oracle.get(k, "MISSING")
